@@ -11,6 +11,7 @@ import fractions
 import itertools
 import math
 import operator
+import signal
 import struct
 
 import core
@@ -30,7 +31,34 @@ def _imports():
 # case families
 # ---------------------------------------------------------------------------------------------
 
-def approx_impl(x: F, e: F):
+class _Timeout(BaseException):
+    pass
+
+
+def _on_alarm(signum, frame):
+    raise _Timeout()
+
+
+IMPL_TIME_LIMIT = 2.0     # seconds per call; the loop is proved to need < den iterations
+MAX_TIMEOUTS = 3          # after that many hanging calls a family stops calling the implementation
+
+
+def with_time_limit(fn, *args):
+    """Run fn(*args) in-process under a wall-clock limit (SIGALRM; the code under test is a pure
+    Python loop, so the handler runs between two bytecodes). Non-termination is an observable
+    outcome ('error', 'timeout'), not a hung check."""
+    old = signal.signal(signal.SIGALRM, _on_alarm)
+    signal.setitimer(signal.ITIMER_REAL, IMPL_TIME_LIMIT)
+    try:
+        return fn(*args)
+    except _Timeout:
+        return ['error', 'timeout']
+    finally:
+        signal.setitimer(signal.ITIMER_REAL, 0)
+        signal.signal(signal.SIGALRM, old)
+
+
+def _approx_impl(x: F, e: F):
     TimeType, numeric, gmpy2 = _imports()
     try:
         r = numeric.approximate_rational(gmpy2.mpq(x.numerator, x.denominator),
@@ -38,6 +66,10 @@ def approx_impl(x: F, e: F):
         return ['ok', F(int(r.numerator), int(r.denominator))]
     except Exception as exc:  # noqa
         return ['error', core.classify_exception(exc)]
+
+
+def approx_impl(x: F, e: F):
+    return with_time_limit(_approx_impl, x, e)
 
 
 def approx_cases_exhaustive(bound: int):
@@ -171,9 +203,17 @@ def _check_approx(ctx, cases, label):
     """cases: list of (x, e). Compare impl / model, judge impl."""
     lines = []
     impl = []
+    timeouts = 0
     for x, e in cases:
-        impl.append(approx_impl(x, e))
+        r = approx_impl(x, e)
+        impl.append(r)
         lines.append(sx(['c14', 'approx', x, e]))
+        if r == ['error', 'timeout']:
+            timeouts += 1
+            if timeouts >= MAX_TIMEOUTS:
+                ctx.count(label + ':stopped-after-timeouts')
+                break
+    cases = cases[:len(lines)]
     # judge every implementation answer with the executable spec
     jl = []
     for (x, e), r in zip(cases, impl):
@@ -205,7 +245,9 @@ def _check_approx(ctx, cases, label):
                           {'kind': 'approx', 'x': str(x), 'e': str(e), 'impl': str(r), 'model': str(m),
                            'judge': verdict})
         elif r[0] == 'error' and e > 0:
-            ctx.violation('approximate_rational(%s, %s) raised %s for a valid tolerance' % (x, e, r[1]),
+            what = ('did not return within %.0f s (the loop is proved to terminate)' % IMPL_TIME_LIMIT
+                    if r[1] == 'timeout' else 'raised %s for a valid tolerance' % r[1])
+            ctx.violation('approximate_rational(%s, %s) %s' % (x, e, what),
                           {'kind': 'approx', 'x': str(x), 'e': str(e), 'impl': str(r), 'model': str(m)})
         elif r[0] == 'ok' and e <= 0:
             ctx.violation('approximate_rational(%s, %s) accepted a non-positive tolerance' % (x, e),
@@ -311,6 +353,13 @@ def _check_ops(ctx, n):
                           {'kind': 'hash', 'value': str(a)})
 
 
+def _from_float_guarded(TimeType, f, *args):
+    try:
+        return TimeType.from_float(f, *args)
+    except Exception as exc:  # noqa
+        return ['error', core.classify_exception(exc)]
+
+
 def _float_bits(f: float) -> int:
     return struct.unpack('<Q', struct.pack('<d', f))[0]
 
@@ -342,13 +391,15 @@ def _check_from_float(ctx, n):
                     pass
             continue
         s = repr(f)
-        t_default = TimeType.from_float(f)
+        t_default = _from_float_guarded(TimeType, f)
         lines.append(sx(['c14', 'parse-decimal', s]))
-        got.append(F(int(t_default.numerator), int(t_default.denominator)))
+        got.append(t_default[1] if isinstance(t_default, list)
+                   else F(int(t_default.numerator), int(t_default.denominator)))
         meta.append(('default', f))
-        t_exact = TimeType.from_float(f, 0)
+        t_exact = _from_float_guarded(TimeType, f, 0)
         lines.append(sx(['c14', 'of-bits', _float_bits(f)]))
-        got.append(F(int(t_exact.numerator), int(t_exact.denominator)))
+        got.append(t_exact[1] if isinstance(t_exact, list)
+                   else F(int(t_exact.numerator), int(t_exact.denominator)))
         meta.append(('exact', f))
     answers = core.Lean.run(lines)
     for line, g, ans, (mode, f) in zip(lines, got, answers, meta):
@@ -373,11 +424,24 @@ def _check_from_float(ctx, n):
         err = rng.choice([1e-3, 1e-6, 1e-9, 0.5, 1.0, 0.25, rng.uniform(1e-12, 1.0)])
         cases.append((f, err))
     jl, res = [], []
+    kept, timeouts = [], 0
     for f, err in cases:
-        t = TimeType.from_float(f, err)
+        t = with_time_limit(_from_float_guarded, TimeType, f, err)
+        if isinstance(t, list):          # ['error', 'timeout' | exception class]
+            ctx.case(sx(['c14', 'from-float-tol', F(f), F(err)]))
+            what = ('did not return within %.0f s' % IMPL_TIME_LIMIT) if t[1] == 'timeout' else 'raised ' + t[1]
+            ctx.violation('TimeType.from_float(%r, %r) %s for a valid tolerance' % (f, err, what),
+                          {'kind': 'from_float_tol', 'value': repr(f), 'err': repr(err), 'impl': t[1]})
+            if t[1] == 'timeout':
+                timeouts += 1
+                if timeouts >= MAX_TIMEOUTS:
+                    break
+            continue
         r = F(int(t.numerator), int(t.denominator))
         res.append(r)
+        kept.append((f, err))
         jl.append(sx(['c14', 'judge-approx', F(f), F(err), r]))
+    cases = kept
     for (f, err), r, ans, line in zip(cases, res, core.Lean.run(jl), jl):
         ctx.case(line)
         ctx.count('from_float:tolerance')
